@@ -378,6 +378,23 @@ func (un *Unit) ev(e Expr, sc *Scope) SV {
 		switch e.Op {
 		case "!":
 			return boolSV(not(x.t))
+		case "*":
+			// dereference of a pointer to a non-struct value (a cell), e.g. *s.rw for a *sync.RWMutex field
+			if x.typ == nil {
+				return sc.fail("dereference of a ghost value")
+			}
+			pt, ok := x.typ.Underlying().(*types.Pointer)
+			if !ok {
+				return sc.fail("dereference of non-pointer %s", x.typ)
+			}
+			if isStructType(pt.Elem()) {
+				return SV{t: x.t, typ: x.typ}
+			}
+			pl := &Place{comp: un.cellComp(pt.Elem()), keys: []string{x.t}, typ: pt.Elem()}
+			if x.place != nil && false {
+				pl = x.place
+			}
+			return SV{t: un.loadPlace(sc.cur, pl), typ: pt.Elem(), place: pl}
 		case "-":
 			if un.u.bv && !x.lit {
 				return SV{t: "(bvneg " + x.t + ")", typ: x.typ}
@@ -973,6 +990,10 @@ func (un *Unit) evCall(e *ECall, sc *Scope) SV {
 	case "fresh":
 		x := arg(0)
 		return boolSV("(>= " + un.refOf(x) + " " + un.next(sc.old) + ")")
+	case "arr":
+		// arr(b): the backing array (the page, for mmap'd memory) of slice b
+		x := arg(0)
+		return SV{t: "(s_arr " + x.t + ")", sort: "Int"}
 	case "valid":
 		// valid(x): x refers to an object that exists in the current state (or is nil)
 		x := arg(0)
